@@ -62,7 +62,11 @@ bool zlib_agrees(int wrap, const uint8_t *in, size_t len, int ref_status, const 
         z.avail_out = (uInt) out.size();
         int r = inflate(&z, Z_FINISH);
         if (r == Z_NEED_DICT && dict) {
-                inflateSetDictionary(&z, dict, (uInt) dict_len);
+                int sr = inflateSetDictionary(&z, dict, (uInt) dict_len);
+                if (sr != Z_OK) { // DICTID in a (possibly damaged) header does not match: zlib is stricter than decodability
+                        inflateEnd(&z);
+                        return true;
+                }
                 r = inflate(&z, Z_FINISH);
         }
         bool ok = true;
